@@ -1006,6 +1006,9 @@ class MetricFrame:
         else:
             # Need to specify dtype to avoid inadvertent type conversions
             f_arr = np.squeeze(np.asarray(features, dtype=object))
+            if len(sample_array) == 1:
+                # squeeze also removed the sample axis of a one-row input
+                f_arr = f_arr.reshape(1, -1)
             if len(f_arr.shape) == 1:
                 check_consistent_length(f_arr, sample_array)
                 result.append(GroupFeature(base_name, f_arr, 0, None))
